@@ -647,3 +647,52 @@ Proof.
   destruct (box_exit_points dx dy dz v d) as [[en ex]|] eqn:E; [|contradiction].
   exists en, ex. split; [reflexivity|]. apply exit_points_box_sound_lemma; assumption.
 Qed.
+
+(* ================================================================ the energy source *)
+Definition source_calls (o : gop) : Z :=
+  match o with Throws r => (Z.of_nat r + 1)%Z | DirectEnergy => 1%Z | SetCountG _ => 0%Z end.
+Definition op_throws (o : gop) : Z :=
+  match o with Throws r => (Z.of_nat r + 1)%Z | _ => 0%Z end.
+Fixpoint sumZ (f : gop -> Z) (ops : list gop) : Z :=
+  match ops with [] => 0%Z | o :: r => (f o + sumZ f r)%Z end.
+
+(* the source is called exactly once per throw (rejected ones included) and once per direct call,
+   never otherwise (in particular not at construction: g_init starts at position 0) *)
+Lemma g_run_pos : forall ops s, g_pos (fst (g_run s ops)) = (g_pos s + sumZ source_calls ops)%Z.
+Proof.
+  induction ops as [|o ops IH]; intro s; [cbn; lia|].
+  cbn [g_run sumZ]. destruct (g_step s o) as [s' out] eqn:E.
+  specialize (IH s'). destruct (g_run s' ops) as [s'' outs]. cbn [fst] in *. rewrite IH.
+  destruct o; cbn in E; injection E as <- <-; cbn [g_pos source_calls]; lia.
+Qed.
+
+Lemma g_run_count : forall ops s,
+  List.Forall (fun o => match o with SetCountG _ => False | _ => True end) ops ->
+  g_count (fst (g_run s ops)) = (g_count s + sumZ op_throws ops)%Z.
+Proof.
+  induction ops as [|o ops IH]; intros s H; [cbn; lia|].
+  inversion H as [|? ? Ho Hr]; subst. cbn [g_run sumZ]. destruct (g_step s o) as [s' out] eqn:E.
+  specialize (IH s' Hr). destruct (g_run s' ops) as [s'' outs]. cbn [fst] in *. rewrite IH.
+  destruct o; cbn in E; try contradiction; injection E as <- <-; cbn [g_count op_throws]; lia.
+Qed.
+
+(* an event carries the value produced by the call made in its own (accepted) throw: with no direct
+   calls and count started at c0 together with the source, the accepted throw number k overall
+   (rejected throws included) has the k-th value: energy index = count - c0 - 1 *)
+Definition only_throws (ops : list gop) : Prop :=
+  List.Forall (fun o => match o with Throws _ => True | _ => False end) ops.
+Definition event_matches (c0 : Z) (o : gout) : Prop :=
+  match o with GEvent i c => i = (c - c0 - 1)%Z | _ => True end.
+
+Lemma g_run_kth c0 : forall ops s, only_throws ops -> g_pos s = (g_count s - c0)%Z ->
+  List.Forall (event_matches c0) (snd (g_run s ops)) /\
+  g_pos (fst (g_run s ops)) = (g_count (fst (g_run s ops)) - c0)%Z.
+Proof.
+  induction ops as [|o ops IH]; intros s H Hs; [cbn; split; [constructor|assumption]|].
+  inversion H as [|? ? Ho Hr]; subst. destruct o as [r| |c]; try contradiction.
+  cbn [g_run g_step].
+  set (s' := mkG (g_pos s + (Z.of_nat r + 1)) (g_count s + (Z.of_nat r + 1))).
+  assert (Hs' : g_pos s' = (g_count s' - c0)%Z) by (unfold s'; cbn; lia).
+  destruct (IH s' Hr Hs') as [A B]. destruct (g_run s' ops) as [s'' outs]. cbn [fst snd] in *.
+  split; [|assumption]. constructor; [cbn; lia|assumption].
+Qed.
